@@ -107,7 +107,9 @@ fn random(args: &Args, acc: &mut Acc, seed: u64, verbose: bool) {
     let kind = *rng.pick(&kinds(args.only.as_deref()));
     let cfgs: Vec<(usize, usize)> = chan::cfgs_for(kind, false);
     let (n, m) = *rng.pick(&cfgs);
-    let streams = 1 + rng.below(m.min(2) as u64) as usize;
+    // (Multi kinds: one run in six has NO listener at all -- an accepted event is then released at once and must not keep its pool slot)
+    let streams = if kind.is_multi() && rng.chance(1, 6) { 0 } else { 1 + rng.below(m.min(2) as u64) as usize };
+    if streams == 0 { acc.count("random_scripts_on_a_multi_channel_without_listeners", 1) }
     let alpha = { let mut a = alphabet(kind, true); if streams > 1 { a.push(Op::Poll(1)); a.push(Op::PollDrop(1)) } a };
     let len = 5 + rng.below(200) as usize;
     let origin = match rng.below(4) { 0 => None, 1 | 2 => *rng.pick(&origins_window(n)), _ => Some(rng.next() as u32) };
